@@ -5,6 +5,7 @@ import XV.Drv.QcTree
 import XV.Drv.Sandbox
 import XV.Drv.SpinLock
 import XV.Drv.GovToken
+import XV.Drv.Acl
 /-! line-protocol model driver: `xvdriver <engine> < ops.txt > model.out` -/
 def main (args : List String) : IO UInt32 := do
   match args with
@@ -15,4 +16,5 @@ def main (args : List String) : IO UInt32 := do
   | ["sandbox"] => XV.Drv.Sandbox.run; return 0
   | ["lock"] => XV.Drv.SpinLock.run; return 0
   | ["gov"] => XV.Drv.GovToken.run; return 0
+  | ["acl"] => XV.Drv.Acl.run; return 0
   | _ => IO.eprintln "usage: xvdriver <engine>"; return 2
